@@ -6,6 +6,8 @@ open Acra.Py Acra.Model.Ch11Pay Acra.Model.Ch11Pay.MIL1553 Acra.Gen.Ch11MIL1553 
 theorem MILMsg_eq_sound (a b : Msg) (h : Msg.eq a b = true) : a.pack = b.pack := by
   rw [(Msg_eq_iff a b).1 h]
 
+example : Msg.eq ⟨.rtc 77, 0xFFFF, 3, 3, [1, 2, 3]⟩ ⟨.rtc 77, 0xFFFF, 3, 3, [1, 2, 3]⟩ = true := by decide
+
 /-- packet equality compares the messages, the count and the time-tag bits; equal packets encode identically -/
 theorem MIL_eq_sound (a b : Packet) (h : Packet.eq a b = true) : a.pack.2 = b.pack.2 := by
   simp only [Packet.eq, Bool.and_eq_true, beq_iff_eq, msgsEq_iff] at h
@@ -13,6 +15,10 @@ theorem MIL_eq_sound (a b : Packet) (h : Packet.eq a b = true) : a.pack.2 = b.pa
   simp only [Packet.pack, h1, h3]
   repeat' split
   all_goals simp_all
+
+/-- non-vacuity: equal although the time-stamp source option differs -/
+example : Packet.eq { messages := [⟨.rtc 77, 0xFFFF, 3, 3, [1, 2, 3]⟩], msgcount := 1, ttb := 3, ipts_source := some 0 }
+    { messages := [⟨.rtc 77, 0xFFFF, 3, 3, [1, 2, 3]⟩], msgcount := 1, ttb := 3, ipts_source := some 1 } = true := by decide
 
 /-- the object decoded from `a`'s encoding compares equal to `a` as `pack` left it, provided `a`'s count
     is the number of its messages (what `append()` maintains) -/
@@ -23,5 +29,16 @@ theorem MIL_eq_decode (a t : Packet) (h : C04.MIL_WF a) (ho : t.ipts_source = a.
   refine ⟨b, hp, by rw [hu], ?_⟩
   rw [hu, C04.MIL_pack_eq a h]
   simp [Packet.eq, msgsEq_iff, hc]
+
+/-- non-vacuity of `MIL_eq_decode`: two messages (the first without data), count in step, decoder with the same source -/
+example :
+    let a : Packet := { messages := [⟨.rtc 1, 0, 0, 0, []⟩, ⟨.rtc 77, 0xFFFF, 3, 0, [1, 2, 3]⟩], msgcount := 2, ttb := 3,
+                        ipts_source := some 0 }
+    C04.MIL_WF a ∧ (Packet.fresh (some 0)).ipts_source = a.ipts_source ∧ a.msgcount = a.messages.length := by
+  refine ⟨⟨?_, by simp, by simp, by simp, by simp⟩, rfl, rfl⟩
+  intro m hm
+  simp only [List.mem_cons, List.mem_nil_iff, or_false] at hm
+  rcases hm with h | h <;> subst h <;>
+    simp [Msg_WF, Lemmas.Ch11Pay.Ipts_WF, C04.protoIpts, iptsOfSource, Gen.Ch11PayTs.TS_CH4, Lemmas.Ch11Pay.sameKind]
 
 end Acra.Props.C14
